@@ -39,7 +39,7 @@ PROBES = ["split_remainder_nonzero", "insufficient_funds_refused", "less_than_on
           "cache_roundtrip_bytes", "torn_cache_file_read", "provider_lookup_cached", "observed_stuck_after_heal",
           "observed_txdb_returned_unrequested_tx", "spendable_form_text", "spendable_form_dict", "display_roundtrip",
           "attach_unspents", "fee_after_in_place_edit", "validate_against_unfiltered_source", "validate_against_plain_dict",
-          "validate_refused_colluding_source", "attach_left_unknown", "build_by_hand_distribute_from_split_pool", "build_create_signed_tx", "build_args_are_generators", "fee_with_unpaired_unspents_refused", "attach_in_place"]
+          "validate_refused_colluding_source", "attach_left_unknown", "build_by_hand_distribute_from_split_pool", "build_create_signed_tx", "build_args_are_generators", "fee_with_unpaired_unspents_refused", "attach_in_place", "caller_edits_its_lists_after_build"]
 
 CACHE = "/wallet/cache"
 
@@ -147,7 +147,8 @@ def gen_plan(rng, tier, index, config=None):
             steps.append({"op": "build", "id": "x%d" % nbuilt, "spend": spends, "pay": pays, "fee": fee,
                           "lock_time": r.pick([0, 0, 500000]), "version": r.pick([1, 1, 2]),
                           "route": r.weighted([("create_tx", 4), ("manual", 1), ("signed", 1)]),
-                          "container": r.weighted([("list", 4), ("tuple", 1), ("generator", 1)])})
+                          "container": r.weighted([("list", 4), ("tuple", 1), ("generator", 1)]),
+                          "caller_edits": r.weighted([(None, 3), ("reverse", 1), ("pop", 1), ("clear", 1), ("replace", 1)])})
             nbuilt += 1
         elif op == "validate":
             steps.append({"op": "validate", "tx": "x%d" % r.below(nbuilt), "db": r.weighted([("txdb", 5), ("raw", 3 if faulty else 1), ("dict", 1)])})
@@ -609,6 +610,22 @@ def _op_build(ctx, W, st):
         ctx.violate("C13", "insufficient-funds-not-refused", {"inputs": total_in, "fixed": fixed, "fee": fee_n, "unspecified": zero,
                                                               "outputs": [o.coin_value for o in tx.txs_out]})
         return
+    how = st.get("caller_edits")
+    if how and isinstance(objs, list) and isinstance(payables, list) and st.get("container", "list") == "list" and objs:
+        # the caller goes on using the very lists it passed (for its next transaction): the one already built keeps
+        # describing itself, whatever happens to them
+        ctx.probe("caller_edits_its_lists_after_build")
+        if how == "reverse":
+            objs.reverse()
+            payables.reverse()
+        elif how == "pop":
+            objs.pop()
+        elif how == "clear":
+            del objs[:]
+            del payables[:]
+        elif how == "replace":
+            objs[0] = objs[-1]
+            objs.append(objs[0])
     outs = [o.coin_value for o in tx.txs_out]
     ctx.obs("build", outs)
     # expected outputs
